@@ -286,12 +286,23 @@ func (c *Ctx) resolveRenames() {
 			names = append(names, n)
 		}
 		sort.Strings(names)
+		base := func(n string) string {
+			if i := strings.Index(n, ")."); i >= 0 {
+				return n[i+2:]
+			}
+			return n
+		}
 		for _, n := range names {
 			fp := c.fingerprint(fresh[n])
-			if fp.Sig != want.Sig {
-				continue
-			}
 			s := 0.5*jaccard(want.Callees, fp.Callees) + 0.5*jaccard(want.Fields, fp.Fields)
+			if fp.Sig != want.Sig {
+				// another signature: only the same function under the same name in another form (a method that
+				// became a plain function or the reverse, parameters added, removed or reordered)
+				if base(n) != base(m) || s < 0.5 {
+					continue
+				}
+				s += 0.2
+			}
 			if s > bs {
 				second, ss = best, bs
 				best, bs = n, s
